@@ -20,8 +20,9 @@ def render_text(f, t):
     parts.append("class M_%s_%d;" % (f, t["k"]))
     if t["faulty"]:
         parts.append("def X_%s_%d : U_%s_%d;" % (f, t["k"], f, t["k"]))
-    sep = "\n" if t.get("lay", 0) == 0 else " "      # same byte offsets, different line structure
-    return sep.join(parts) + "\n"
+    sep = "\n" if t.get("lay", 0) in (0, 2) else " "      # 0 / 1: same byte offsets, different line structure
+    head = "// moved down\n" if t.get("lay", 0) == 2 else ""   # 2: the same statements, every offset shifted
+    return head + sep.join(parts) + "\n"
 
 
 def lsp_range(text, needle):
@@ -275,6 +276,13 @@ def run_sessions(prop, tier, seed, outline, relevant):
             it["symlink"] = True
             items.append(it)
             meta.append((meta[j][0], meta[j][1] + "+symlink"))
+        # configuration: a workspace path with a character the editor percent-encodes in URIs and the url crate does not ("+")
+        for j in range(4, base, 9):
+            it = dict(items[j])
+            it["id"] = len(items)
+            it["dir"] = os.path.join(wd, "fs", "run+%d" % it["id"])
+            items.append(it)
+            meta.append((meta[j][0], meta[j][1] + "+plus-in-path"))
     log("%s %s: %d server sessions" % (prop, tier, len(items)))
     send = [{k: val for k, val in it.items()} for it in items]
     recs, _ = common.run_harness(send, wd, "sessions", timeout_ms=90000, jobs=12)
@@ -323,7 +331,7 @@ def replay(prop, path):
     d = json.load(open(path))
     r = d["replay"]
     wd = common.workdir("replay-" + prop)
-    it = session_item(0, r["session"], wd, "burst" if r["mode"].startswith("hold") else r["mode"].replace("+symlink", ""), r.get("outline", False))
+    it = session_item(0, r["session"], wd, "burst" if r["mode"].startswith("hold") else r["mode"].replace("+symlink", "").replace("+plus-in-path", ""), r.get("outline", False))
     if "+symlink" in r["mode"]:
         it["symlink"] = True
     if r.get("hold"):
